@@ -705,7 +705,16 @@ class t2listing(object):
                 if exppos > 0:
                     endpos = exppos + 3
                     next_start = endpos + 1
-                else: raise Exception("Unable to parse table line:\n" + line)
+                else:
+                    # no 'E' either: a fixed-point number, or a number with a 3-digit
+                    # exponent (printed without its 'E'), directly followed by the
+                    # next number, which starts at its minus sign if it has one:
+                    if line[nextpt - 1] == '-': next_start = nextpt - 1 # e.g. -.12345E+01
+                    elif nextpt - 2 >= pstart and line[nextpt - 2] == '-':
+                        next_start = nextpt - 2 # e.g. -0.12345E+01
+                    elif line.find('-', pstart, pend) > 0 or line.find('+', pstart, pend) > 0:
+                        next_start = nextpt - 1 # unsigned number after a 3-digit exponent
+                    else: raise Exception("Unable to parse table line:\n" + line)
             numpos.append(next_start)
         numpos.append(len(line))
         return numpos
